@@ -104,6 +104,29 @@ static void putDstu(const dstu_params* p)
 	jOct("Px", p->P, no); jOct("Py", p->P + no, no);
 }
 
+/* bignParamsGen walked over its first seeds: on_seed() records every seed it is handed and interrupts the generation
+   (bign.h: an error code of on_seed() ends the computation with that code) once `max` seeds have been processed;
+   calc_q() records (seed, b) and answers ERR_NO_RESULT (bign.h: the generation moves to the next seed) */
+typedef struct { size_t nseed, ncalc, max; octet seeds[8][8]; octet cseed[8][8]; octet cb[8][64]; } pgen_st;
+static err_t pgOnSeed(const bign_params* p, void* st)
+{
+	pgen_st* s = (pgen_st*)st;
+	if (s->nseed == s->max) return ERR_MAX;
+	memcpy(s->seeds[s->nseed++], p->seed, 8); return ERR_OK;
+}
+static err_t pgCalcQ(bign_params* p, void* st)
+{
+	pgen_st* s = (pgen_st*)st;
+	if (s->ncalc < 8) { memcpy(s->cseed[s->ncalc], p->seed, 8); memcpy(s->cb[s->ncalc], p->b, 64); ++s->ncalc; }
+	return ERR_NO_RESULT;
+}
+static void jOcts8(const char* k, octet a[][8], size_t n)
+{
+	size_t i, j; jSep(); fprintf(vx_out, "\"%s\":[", k);
+	for (i = 0; i < n; ++i) { fprintf(vx_out, "%s[", i ? "," : ""); for (j = 0; j < 8; ++j) fprintf(vx_out, "%s%u", j ? "," : "", a[i][j]); fputc(']', vx_out); }
+	fputc(']', vx_out);
+}
+
 static void doStd(void)
 {
 	size_t i;
@@ -543,6 +566,25 @@ static void doExecLine(vx_cmd* c)
 		loadBign(p, c); no = p->l == 96 ? 24 : p->l / 4; Q = (octet*)xalloc(2 * no); memset(Q, 0, 2 * no);
 		e = strcmp(scheme, "bign") == 0 ? bignPubkeyCalc(Q, p, d) : bign96PubkeyCalc(Q, p, d);
 		jOct("Qx", Q, no); jOct("Qy", Q + no, no); jInt("rc", e); free(Q); free(p); free(d);
+	}
+	else if (strcmp(op, "bignGen") == 0)
+	{
+		const char* name = vxArg(c, "name"); size_t sl, i, j, no; octet* seed = vxHex(c, "seed", &sl);
+		bign_params* p = (bign_params*)xalloc(sizeof(*p)); pgen_st* st = (pgen_st*)xalloc(sizeof(*st)); err_t e;
+		e = bignParamsStd(p, name ? name : BIGN_NAMES[0]); no = p->l / 4;
+		memset(st, 0, sizeof(*st)); st->max = (size_t)vxInt(c, "max", 3); if (st->max > 8) st->max = 8;
+		if (e == ERR_OK && sl == 8)
+		{
+			memcpy(p->seed, seed, 8); memset(p->b, 0xA5, sizeof(p->b)); memset(p->q, 0xA5, sizeof(p->q)); memset(p->yG, 0xA5, sizeof(p->yG));
+			jInt("l", (long long)p->l); jOct("p", p->p, no); jOct("a", p->a, no); jOct("seed0", seed, 8); jInt("nmax", (long long)st->max);
+			e = bignParamsGen(p, pgCalcQ, pgOnSeed, st);
+			jInt("rc", e); jInt("errmax", ERR_MAX); jOcts8("seeds", st->seeds, st->nseed); jOcts8("cseeds", st->cseed, st->ncalc);
+			jSep(); fprintf(vx_out, "\"cbs\":[");
+			for (i = 0; i < st->ncalc; ++i) { fprintf(vx_out, "%s[", i ? "," : ""); for (j = 0; j < no; ++j) fprintf(vx_out, "%s%u", j ? "," : "", st->cb[i][j]); fputc(']', vx_out); }
+			fputc(']', vx_out);
+		}
+		else jInt("rc", -1);
+		free(seed); free(p); free(st);
 	}
 	else if (strcmp(op, "paramsGen") == 0 && scheme)
 	{
